@@ -466,6 +466,9 @@ std::vector<Spec> inplaceExtraPool() {
   auto add = [&](const std::string& name, bool quick, std::vector<Item> items) { Spec s; s.name = name; s.items = std::move(items); s.quick = quick; p.push_back(std::move(s)); };
   add("I3", true, { { 101, "X1", T::base, "", "", "a", "" }, { 102, "X2", T::base, "", "", "b", "" }, { 103, "X3", T::base, "", "", ref("X1"), "" }, { 104, "S1", T::structured, "ℬ(X1×X2)", "", "", "" }, { 105, "S2", T::structured, "ℬ(X3×X2)", "", "", "" } });
   add("dup3", true, { { 101, "X1", T::base, "", "", "a", "" }, { 102, "D1", T::term, "X1", "", "d", "" }, { 103, "D2", T::term, "X1", "", "d", "" }, { 104, "D3", T::term, "X1", "", "d", "" } });
+  // chains of three: the last depends on the first only THROUGH the middle one (formal definitions; term texts)
+  add("chain3", true, { { 101, "X1", T::base, "", "", "", "" }, { 102, "D1", T::term, "X1\\X1", "", "", "" }, { 103, "D2", T::term, "D1∪X1", "", "", "" }, { 104, "D3", T::term, "D2∩X1", "", "", "" } });
+  add("tchain3", true, { { 101, "X1", T::base, "", "", "a", "" }, { 102, "X2", T::base, "", "", "old " + ref("X1"), "" }, { 103, "X3", T::base, "", "", "very " + ref("X2"), "" } });
   add("I2", false, { { 101, "X1", T::base, "", "", "", "" }, { 102, "X2", T::base, "", "", "", "" }, { 103, "S1", T::structured, "ℬ(X1)", "", "", "" }, { 104, "S2", T::structured, "ℬ(X2)", "", "", "" }, { 105, "D1", T::term, "S1", "", "", "" }, { 106, "D2", T::term, "S2", "", "", "" } });
   return p;
 }
